@@ -103,6 +103,9 @@ type sreq struct {
 	// ProtoBad: the Sec-WebSocket-Protocol value violates the token-list grammar before any token the
 	// selector could accept (RFC 6455 4.2.2: a handshake violating the ABNF must be refused)
 	ProtoBad string `json:"protoBad"`
+	// ExtBad: the Sec-WebSocket-Extensions value, verbatim, breaks the list grammar (maybe after
+	// well-formed items); Exts is then empty.
+	ExtBad   string `json:"extBad"`
 	keyValue string
 }
 
@@ -115,6 +118,9 @@ type scfg struct {
 	ExtraHeader  bool     `json:"extraHeader"`
 	ExtMode      string   `json:"extMode"`   // none | select | negotiate
 	RejectExt    string   `json:"rejectExt"` // reject=negotiate: the only extension the negotiator objects to ("" = all)
+	// RejectOnce: the negotiator objects the first time it is asked about that extension only (a
+	// callback with state of its own): an objection is an objection
+	RejectOnce bool `json:"rejectOnce"`
 	Custom       string   `json:"custom"`    // Upgrader.ProtocolCustom: "" | "select" (the callback parses the header itself) | "refuse" (reports it malformed)
 	Rbuf         int      `json:"rbuf"`      // Upgrader.ReadBufferSize (transport detail, not judged)
 	Wbuf         int      `json:"wbuf"`      // Upgrader.WriteBufferSize
@@ -221,7 +227,10 @@ func (q *sreq) render(rng *rand.Rand) []byte {
 		}
 		lines = append(lines, protoLines...)
 	}
-	if len(q.Exts) > 0 {
+	if q.ExtBad != "" {
+		extLines = []string{"Sec-WebSocket-Extensions: " + q.ExtBad}
+		lines = append(lines, extLines...)
+	} else if len(q.Exts) > 0 {
 		parts := []string{}
 		for i, e := range q.Exts {
 			if i%2 == 1 {
@@ -426,8 +435,10 @@ func buildUpgrader(c scfg) ws.Upgrader {
 	case "customrefuse":
 		u.ExtensionCustom = func(v []byte, acc []httphead.Option) ([]httphead.Option, bool) { return acc, false }
 	case "negotiate":
+		objected := false
 		u.Negotiate = func(o httphead.Option) (httphead.Option, error) {
-			if c.Reject == "negotiate" && (c.RejectExt == "" || c.RejectExt == string(o.Name)) {
+			if c.Reject == "negotiate" && (c.RejectExt == "" || c.RejectExt == string(o.Name)) && !(c.RejectOnce && objected) {
+				objected = true
 				return httphead.Option{}, rejectErr(c.RejectStatus)
 			}
 			if inList(c.ExtAccept, string(o.Name)) {
@@ -518,8 +529,10 @@ func runServer(api string, raw []byte, c scfg, key string) (o sobs, ran bool) {
 			case "select":
 				u.Extension = func(o httphead.Option) bool { return inList(c.ExtAccept, string(o.Name)) }
 			case "negotiate":
+				objected := false
 				u.Negotiate = func(o httphead.Option) (httphead.Option, error) {
-					if c.Reject == "negotiate" && (c.RejectExt == "" || c.RejectExt == string(o.Name)) {
+					if c.Reject == "negotiate" && (c.RejectExt == "" || c.RejectExt == string(o.Name)) && !(c.RejectOnce && objected) {
+						objected = true
 						return httphead.Option{}, rejectErr(c.RejectStatus)
 					}
 					if inList(c.ExtAccept, string(o.Name)) {
